@@ -186,11 +186,11 @@ class Monitor:
             return None
         st = self.tx.setdefault(e.tx, {"req": -1, "res": -1, "seen": {}, "done": False, "rp": 0, "sp": 0, "interim": 0})
         if st["done"]:
-            return ("after-complete", "callback %s for tx %d after its transaction_complete" % (e.name, e.tx))
+            return ("after-complete:" + e.name, "callback %s for tx %d after its transaction_complete" % (e.name, e.tx))
         n = e.name
         st["seen"][n] = st["seen"].get(n, 0) + 1
         if n in ("request_complete", "response_complete", "transaction_complete") and st["seen"][n] > 1:
-            return ("complete-twice", "%s delivered %d times for tx %d" % (n, st["seen"][n], e.tx))
+            return ("complete-twice:" + n, "%s delivered %d times for tx %d" % (n, st["seen"][n], e.tx))
         # progress never moves backwards except the documented restart after an interim 100 response: response progress from HEADERS
         # back to LINE (first seen at whichever callback comes next). Checked before the callback order so that a known ordering finding at the same
         # callback cannot hide it.
